@@ -164,16 +164,21 @@ func (t *ttlMemCache) set(key string, value []byte, fns ...SetOptFn) error {
 	}
 	var ele, ok = t.eleHash[key]
 	if ok {
-		if o.mustNotExist {
-			return ErrTTLKeyExists
-		}
-		t.eleList.MoveToFront(ele)
 		var node = ele.Value.(*ttlNode)
-		node.value = value
-		if !o.keepTTL {
-			node.deadline = deadline(o.ttl)
+		if now() > node.deadline {
+			// an expired entry behaves like a key that was never set
+			t.remove(ele, node)
+		} else {
+			if o.mustNotExist {
+				return ErrTTLKeyExists
+			}
+			t.eleList.MoveToFront(ele)
+			node.value = value
+			if !o.keepTTL {
+				node.deadline = deadline(o.ttl)
+			}
+			return nil
 		}
-		return nil
 	}
 	var node = &ttlNode{key: key, value: value, deadline: deadline(o.ttl)}
 	ele = t.eleList.PushFront(node)
